@@ -283,7 +283,7 @@ def check_n_inputs():
         for label, circ, inp in setups():
             hout = circ.heralds["output"]
             m = circ.input_modes
-            for (psl, ps), mind, (eff, pd, counting) in itertools.product(ps_variants(m), (0, 1, 2), ((1.0, 0.0, True), (0.5, 0.0, True), (1.0, 0.0, False), (0.7, 0.3, False))):
+            for (psl, ps), mind, (eff, pd, counting) in itertools.product(ps_variants(m), (0, 1, 2, 3, 4), ((1.0, 0.0, True), (0.5, 0.0, True), (1.0, 0.0, False), (0.7, 0.3, False), (1.0, 0.3, True))):
                 n += 1
                 rec = Recorder()
                 smod.np = NPProxy(rec)
@@ -307,6 +307,13 @@ def check_n_inputs():
                     continue
                 finally:
                     smod.np, dmod.random = real_np, real_random
+                if not rec.calls:
+                    # returned without drawing: only right when no detected outcome can be accepted - no dark counts (they add photons after the
+                    # circuit) and more photons demanded than any output of the distribution carries on the non-heralded modes
+                    most = max(sum(x for i, x in enumerate(k.s) if i not in hout) for k in pd_exact)
+                    if pd > 0 or mind <= most or sum(res.values()) != 0:
+                        fails.append((case, f"returned {sum(res.values())} samples without drawing from the distribution although accepted outcomes exist (dark counts p_dark={pd}, min_detection={mind}, at most {most} photons)"))
+                    continue
                 vals, p, size = rec.calls[-1]
                 exact = [float(v) for v in pd_exact.values()]
                 if [tuple(v.s) for v in vals] != [tuple(k.s) for k in pd_exact] or any(abs(a - b) > 1e-12 for a, b in zip(p, exact)) or size != N:
